@@ -26,6 +26,11 @@ RULE = ('random portfolios incl. order books with out-of-horizon orders (row-les
         '(extra/start/running costs, start fuel, consumption if on, fuel efficiency, conversion factor, heat share, min-load threshold and costs, capacities) come in every accepted form: '
         'interval data covering only PART of the asset\'s window (nothing given before / after / in a hole in the middle / several holes / nothing at all; boundaries between grid points; with and without \'end\'), '
         'complete interval data, price keys, arrays, numbers - the documented default (0 resp. 1) applies where nothing is given (capacities have none: always complete); every eighth case also split; '
+        'stream zero: dispatch rows of factor zero and other degenerate-but-legitimate quantities as a family across asset types - multi-commodity contracts with commodity factors 0 (any position, several, all), '
+        'order books with orders of capacity 0 (some, all, alone in their node), plants / CHPs with a fuel node whose consumption if on / start fuel is 0 written out (number, zeros as interval data, '
+        'interval data covering part of the window, price key), the same as base of a scaled asset, inside a structured asset (zero factor at the external or the internal node) and on the asset\'s own coarser frequency; '
+        'zero capacities (contract, transport, storage in / out) as companions; the nodes with zero rows are mostly quiet: the other assets touching them live outside a dead zone (they all start later / end earlier / are absent), '
+        'so that at some (node, step) the zero rows are the only dispatch; every sixth case also split; '
         'non-trivial = problem with >= 2 assets and >= 1 nodal row; distinct by scenario hash')
 ASSUMPTIONS = []
 from ..comp import linked as _LK
@@ -37,7 +42,9 @@ PARTIAL = ['cost vectors for price samples (costs_only): NaN entries and length 
            'and no two variables of the same kind and node to the same one); that the cost and bounds of the variable are those of THAT coarse step is a statement about the builders (C13 / builder correspondences), not checked here',
            'assets that are both coarse and periodic, and coarse assets wrapped in a structured asset, are outside the coarse-interval oracle (their variables are merged / relabelled afterwards)']
 EXPLANATION = ('theorems about the model assemble; exact positional correspondence with the real portfolio problem; structural oracle on the real OptimProblem objects (portfolio and every captured asset problem): '
-               'sizes, index range, NaN entries (c, l, u, b, A of the portfolio problem and of every asset problem), blocks, row-less variables, nodal rows <-> (node, step) pairs with dispatch in both directions; '
+               'sizes, index range, NaN entries (c, l, u, b, A of the portfolio problem and of every asset problem), blocks, row-less variables, nodal rows <-> (node, step) pairs with dispatch in both directions '
+               '(a dispatch row counts whatever its factor, zero included: the variable is mapped to that node and step; the row of such a pair may read 0 = 0), the nodal record in the order of the rows, '
+               'each nodal row = sum of the dispatch variables mapped to its node and step with their factors; the same nodal statement on the problem the inner portfolio of every structured asset produces (own nodes skipped); '
                'every asset is also set up stand-alone for its cost vector for price samples (costs_only): no NaN, one entry per variable; when the portfolio set-up raises, the assets\' stand-alone problems are examined all the same; '
                'all streams: where interval data of a parameter with a documented default leave steps of the horizon open, the same scenario with the default WRITTEN OUT as explicit intervals over the rest of time '
                'is set up too - a set-up that raises only without the explicit default (the NaN assertion of the problem), or a problem (c, l, u, b, A, row types) that differs, means that the open steps did not get the default; '
@@ -95,6 +102,13 @@ def scenarios(seed, tier):
         s = c07gen.gen_param_portfolio(random.Random(rnd.getrandbits(48)), tmax=12 if tier == 'quick' else 20, arrays=(i % 8 != 7))
         s['split'] = (i % 8 == 7)
         yield 'param%d' % i, s
+    # dispatch rows of factor ZERO (commodity factor 0, order of capacity 0, fuel if on / per start 0 - stand-alone, scaled, wrapped, on a
+    # coarser frequency) at nodes where at some steps nothing else dispatches; zero capacities: the variable is mapped to the node and
+    # step all the same, so the (node, step) has its nodal row and its entry in the nodal record
+    for i in range(300 if tier == 'quick' else 1800):
+        s = c07gen.gen_degenerate_portfolio(random.Random(rnd.getrandbits(48)), tmax=10 if tier == 'quick' else 16)
+        s['split'] = (i % 6 == 5)
+        yield 'zero%d' % i, s
     # LinkedAsset (comp/linked.py): the model of the linking loop against the real set-up, on captured and on generated structured problems
     from ..comp import linked as LK
     _rl = random.Random(seed * 15485863 + 71)
@@ -178,6 +192,92 @@ def _rng(steps):
     return str(steps[:30])
 
 
+def nodal_rows(op, skip, label):
+    """C07's statement on the nodal rows of an assembled problem: exactly one row of type N per (node not in `skip`, step) to which the
+    mapping assigns a dispatch variable - whatever the factor of its row, zero included: the variable is mapped there -, none otherwise;
+    the nodal record lists them in the order of the rows; each row sums the dispatch variables mapped to its node and step with their factors"""
+    viol = []
+
+    def bad(msg, **facts):
+        viol.append({'oracle': 'mapping_structure', 'detail': label + msg, 'facts': facts})
+    m = op.mapping
+    A = sp.csr_matrix(op.A) if op.A is not None else sp.csr_matrix((0, len(op.c)))
+    d = m[m['type'] == 'd'] if len(m) else m
+    if len(d) and len(skip):
+        d = d[~d['node'].astype(str).isin([str(x) for x in skip])]
+    pairs = set((int(t), str(nn)) for t, nn in zip(d['time_step'].values, d['node'].values)) if len(d) else set()
+    rec_pairs = [(int(t), str(nn)) for t, nn in op.map_nodal_restr]
+    fac = d['disp_factor'].fillna(1.).values if len(d) and 'disp_factor' in d.columns else np.ones(len(d))
+    if len(set(rec_pairs)) != len(rec_pairs):
+        bad('duplicate entries in the nodal record', what='nodal_dup')
+    if set(rec_pairs) - pairs:
+        # (step, node) pairs of the nodal record at which no variable dispatches: rows that should not exist
+        extra = sorted(set(rec_pairs) - pairs)
+        nds = sorted(set(nn for _, nn in extra))
+        bad('%d nodal rows for (step, node) pairs without any dispatch row in the mapping: %s; node %s has dispatch at the steps %s only' % (
+            len(extra), extra[:4], nds[0], sorted(t for t, nn in pairs if nn == nds[0])[:24]), what='nodal_set', direction='row_without_dispatch')
+    if pairs - set(rec_pairs):
+        miss = sorted(pairs - set(rec_pairs))
+        t0, n0 = miss[0]
+        sel = (d['time_step'].values == t0) & (d['node'].astype(str).values == n0)
+        rows0 = [(int(j), str(a), float(f)) for j, a, f in zip(np.asarray(d.index)[sel], d['asset'].astype(str).values[sel], fac[sel])]
+        allzero = all(f == 0 for _, _, f in rows0)
+        bad('no nodal row (and no entry in the nodal record) for %d (step, node) pairs %s although the mapping has dispatch rows there; at step %d, node %s '
+            'the mapping has the dispatch rows (variable, asset, factor) %s%s' % (
+                len(miss), miss[:4], t0, n0, rows0[:4], ' - all of factor zero: the variables are mapped to this node and step all the same' if allzero else ''),
+            what='nodal_set', direction='dispatch_without_row', all_factors_zero=allzero)
+    nN = op.cType.count('N')
+    if nN != len(rec_pairs):
+        bad('%d rows of type N but %d entries in the nodal record' % (nN, len(rec_pairs)), what='nodal_count')
+    else:
+        Nrows = [i for i, k in enumerate(op.cType) if k == 'N']
+        for k, (t, nn) in enumerate(rec_pairs):
+            if (t, nn) not in pairs and not np.any(A[Nrows[k]].data != 0):
+                bad('row %d of type N (recorded for node %s, step %d) is empty (0 = 0): no variable dispatches there' % (Nrows[k], nn, t), what='nodal_empty')
+                break
+        for k, (t, nn) in enumerate(rec_pairs):
+            want = {}
+            sel = (d['time_step'].values == t) & (d['node'].astype(str).values == nn)
+            for j, f in zip(np.asarray(d.index)[sel], fac[sel]):
+                want[int(j)] = want.get(int(j), 0.0) + float(f)
+            row = A[Nrows[k]]
+            got = {int(j): float(v) for j, v in zip(row.indices, row.data) if v != 0}
+            want = {j: v for j, v in want.items() if v != 0}
+            if got != want or op.b[Nrows[k]] != 0:
+                bad('nodal row of node %s step %d has coefficients %s, dispatch rows say %s' % (nn, t, dict(list(got.items())[:4]), dict(list(want.items())[:4])), what='nodal_coeffs')
+                break
+    return viol
+
+
+def inner_nodal_rows(rec):
+    """the same statement on the problem the INNER portfolio of every structured asset produces (set up as the structured asset sets it
+    up: its own nodes are skipped, they get their rows in the outer portfolio) - fresh objects"""
+    from .. import scen
+    viol = []
+    if not any(a['type'] == 'StructuredAsset' for a in rec['scn']['assets']):
+        return viol
+    try:
+        portf, tg, prices, _ = scen.build(rec['scn'])
+    except Exception:
+        return viol
+    for a in portf.assets:
+        if type(a).__name__ != 'StructuredAsset':
+            continue
+        try:
+            with impl.Quiet():
+                op = a.portfolio.setup_optim_problem(prices, tg, skip_nodes=a.node_names)
+        except Exception:
+            continue
+        if op is None or op.mapping is None or not hasattr(op, 'map_nodal_restr') or len(op.A.shape) != 2 or op.A.shape[1] != len(op.c):
+            continue
+        skip = [str(x) for x in a.node_names]
+        viol += nodal_rows(op, skip, 'inner portfolio of the structured asset %r (own nodes %s skipped): ' % (a.name, skip))
+        for v in viol:
+            v['facts'].setdefault('asset_type', 'StructuredAsset')
+            v['facts'].setdefault('inner', True)
+    return viol
+
+
 def structural(rec):
     """direct check of C07's statement on the real problem objects"""
     viol = []
@@ -250,41 +350,9 @@ def structural(rec):
     if other:
         bad('mapping names unknown assets %s' % sorted(other)[:3], what='asset_names')
     # nodal rows
-    d = m[m['type'] == 'd'] if len(m) else m
-    pairs = set((int(t), str(nn)) for t, nn in zip(d['time_step'].values, d['node'].values)) if len(d) else set()
-    rec_pairs = [(int(t), str(nn)) for t, nn in op.map_nodal_restr]
-    if len(set(rec_pairs)) != len(rec_pairs):
-        bad('duplicate entries in the nodal record', what='nodal_dup')
-    if set(rec_pairs) - pairs:
-        # (step, node) pairs of the nodal record at which no variable dispatches: rows that should not exist
-        extra = sorted(set(rec_pairs) - pairs)
-        nds = sorted(set(nn for _, nn in extra))
-        bad('%d nodal rows for (step, node) pairs without any dispatch row in the mapping: %s; node %s has dispatch at the steps %s only' % (
-            len(extra), extra[:4], nds[0], sorted(t for t, nn in pairs if nn == nds[0])[:24]), what='nodal_set', direction='row_without_dispatch')
-    if pairs - set(rec_pairs):
-        bad('no nodal row for the (step, node) pairs %s although the mapping has dispatch rows there' % sorted(pairs - set(rec_pairs))[:4],
-            what='nodal_set', direction='dispatch_without_row')
-    nN = op.cType.count('N')
-    if nN != len(rec_pairs):
-        bad('%d rows of type N but %d entries in the nodal record' % (nN, len(rec_pairs)), what='nodal_count')
-    else:
-        Nrows = [i for i, k in enumerate(op.cType) if k == 'N']
-        fac = d['disp_factor'].fillna(1.).values if 'disp_factor' in d.columns else np.ones(len(d))
-        for k, (t, nn) in enumerate(rec_pairs):
-            if (t, nn) not in pairs and not np.any(A[Nrows[k]].data != 0):
-                bad('row %d of type N (recorded for node %s, step %d) is empty (0 = 0): no variable dispatches there' % (Nrows[k], nn, t), what='nodal_empty')
-                break
-        for k, (t, nn) in enumerate(rec_pairs):
-            want = {}
-            sel = (d['time_step'].values == t) & (d['node'].astype(str).values == nn)
-            for j, f in zip(np.asarray(d.index)[sel], fac[sel]):
-                want[int(j)] = want.get(int(j), 0.0) + float(f)
-            row = A[Nrows[k]]
-            got = {int(j): float(v) for j, v in zip(row.indices, row.data) if v != 0}
-            want = {j: v for j, v in want.items() if v != 0}
-            if got != want or op.b[Nrows[k]] != 0:
-                bad('nodal row of node %s step %d has coefficients %s, dispatch rows say %s' % (nn, t, dict(list(got.items())[:4]), dict(list(want.items())[:4])), what='nodal_coeffs')
-                break
+    viol += nodal_rows(op, (), '')
+    if not any(v['facts'].get('what', '').startswith('nodal') for v in viol):
+        viol += inner_nodal_rows(rec)
     # internal variables are labelled with steps at which the asset is active (has dispatch variables)
     for a in portf.assets:
         if type(a).__name__ in ('StructuredAsset', 'LinkedAsset'):
@@ -449,6 +517,8 @@ def run_case(scn, drv):
         feats.append('asset:' + a['type'])
     for x in scn.get('params', []):
         feats.append('param-form:' + x.split(':')[-1])
+    for x in (scn.get('degenerate') or {}).get('carriers', []):
+        feats.append('zero-carrier:' + x)
     try:
         rec = pf.setup_mono(scn)
     except Exception as e:
@@ -484,6 +554,15 @@ def run_case(scn, drv):
         if ts != list(range(ts[0], ts[-1] + 1)):
             feats.append('node-with-gap-in-time')
             break
+    if len(dm) and 'disp_factor' in dm.columns:
+        zf = dm['disp_factor'].fillna(1.).values == 0
+        if zf.any():
+            feats.append('zero-factor-dispatch-row')
+            key = list(zip(dm['time_step'].values.astype(int), dm['node'].astype(str).values))
+            if set(k for k, z in zip(key, zf) if z) - set(k for k, z in zip(key, zf) if not z):
+                feats.append('node-step-with-zero-factor-rows-only')
+    if len(op.l) and (np.asarray(op.l) == np.asarray(op.u)).any():
+        feats.append('variable-with-equal-bounds')
     r['nontrivial'] = len(rec['portf'].assets) >= 2 and op.cType.count('N') >= 1
     if scn.get('split'):
         # every interval problem of a split set-up is itself an assembled problem and must stay faithfully described by its own mapping
